@@ -24,7 +24,7 @@ PROPERTY = "C07"
 LEVEL = "exploration"
 RULE = (
     "single-topology cases: all isobar shapes with 2-5 final states x all distinct"
-    " relabelings of final-state ids (5-body: 2 per shape in quick, 24 per shape in thorough) x"
+    " relabelings of final-state ids (5-body: 2 per shape in quick, 12 per shape in thorough, cse=True only) x"
     " swap of intermediate edge ids x cse {F,T}; adapter cases: every subset of <= 3 of the"
     " distinct three-body topologies, the permuted sets of each 3-/4-body shape (5-body"
     " thorough); events: 7-point lattice per mass configuration {generic, massless, near"
@@ -64,7 +64,7 @@ def cases(tier, seed):
             limit = None
             if n == 5:
                 # ~60 s per five-body case (unfolding + cse of the nested boost chains)
-                limit = 2 if tier == "quick" else 24
+                limit = 2 if tier == "quick" else 12
             perms = distinct_relabelings(shape, limit)
             for perm in perms:
                 swaps = [False]
@@ -72,7 +72,8 @@ def cases(tier, seed):
                 if len(inter) >= 2 and (n < 5 or tier == "thorough" or perm == perms[0]):
                     swaps.append(True)
                 for swap in swaps:
-                    for cse in ((True,) if (n == 5 and tier == "quick") else (False, True)):
+                    # five-body code without cse takes > 30 min per case to generate and run
+                    for cse in ((True,) if n == 5 else (False, True)):
                         out.append({"kind": "single", "n": n, "shape": si, "perm": perm, "swap": swap,
                                     "cse": cse, "seed": seed, "tier": tier})
     # the same shapes with the initial state numbered 0 and the final states 1..n (the
